@@ -535,6 +535,34 @@ pub fn obs_rank<R: Rank + RankZero + ?Sized>(c: &mut Case, r: &R, e: &Env, pos: 
     }
 }
 
+/// The unchecked variants inside their documented domain: `rank_unchecked(p)` /
+/// `rank_zero_unchecked(p)` for `p < len`, and for `p == len` when the backend has a
+/// bit beyond the length (`at_len`).
+pub fn obs_rank_unchecked<R: Rank + RankZero + ?Sized>(c: &mut Case, r: &R, e: &Env, pos: &[usize], at_len: bool) {
+    let len = e.m.len();
+    let cur = Cell::new(0usize);
+    let res = catch(|| {
+        let mut bad = 0;
+        let extra = if at_len { Some(len) } else { None };
+        for p in pos.iter().copied().filter(|&p| p < len).chain(extra) {
+            cur.set(p);
+            let want = e.m.rank(p);
+            let (g1, g0) = unsafe { (r.rank_unchecked(p), r.rank_zero_unchecked(p)) };
+            if g1 != want || g0 != p - want {
+                c.fail("rank_unchecked", "mismatch", "", &format!("rank_unchecked({}) = {}, rank_zero_unchecked = {}, model {} and {} (len {}{}); {}", p, g1, g0, want, p - want, len, if p == len { ", the backend has bits beyond the length" } else { "" }, (e.what)()));
+                bad += 1;
+            }
+            if bad > 8 {
+                break;
+            }
+        }
+        c.tick(pos.len() as u64);
+    });
+    if let Err(msg) = res {
+        c.fail("rank_unchecked", "panic", &msg, &format!("rank_unchecked({}) / rank_zero_unchecked panicked; {}", cur.get(), (e.what)()));
+    }
+}
+
 /// `s[i]` equals bit `i` of the model for every `i` in `idx` (all `< len`).
 pub fn obs_index<I: Index<usize, Output = bool> + ?Sized>(c: &mut Case, s: &I, e: &Env, idx: &[usize]) {
     let cur = Cell::new(0usize);
